@@ -75,10 +75,12 @@ mod verif_inflate_core {
     }
     fn same_decompressor(r: &DecompressorOxide, s: &Snap) -> bool { snap_at(r, s.ix) == *s }
     fn is_failure_state(s: State) -> bool {
-        let mut k = 0;
-        let mut r = false;
-        while k < 10 { if FAILURE_STATES[k] == s { r = true; } k += 1; }
-        r
+        matches!(s, BlockTypeUnexpected | BadCodeSizeSum | BadDistOrLiteralTableLength | BadTotalSymbols | BadZlibHeader
+            | DistanceOutOfBounds | BadRawLength | BadCodeSizeDistPrevLookup | InvalidLitlen | InvalidDist)
+    }
+    fn is_rfc_dist_base(d: u32) -> bool {
+        matches!(d, 1 | 2 | 3 | 4 | 5 | 7 | 9 | 13 | 17 | 25 | 33 | 49 | 65 | 97 | 129 | 193 | 257 | 385 | 513 | 769 | 1025 | 1537 | 2049 | 3073
+            | 4097 | 6145 | 8193 | 12289 | 16385 | 24577)
     }
     /// update_adler32 contract model (real function: K-adler): identity on empty data, an injective-looking mix otherwise.
     fn model_adler(adler: u32, data: &[u8]) -> u32 {
@@ -788,6 +790,284 @@ mod verif_inflate_core {
                 assert!(matches!(a, Action::End(_)) && r.z_adler32 == z0 && l1.counter == l.counter, "OBL:arms.trailer_starved_keeps_partial_value [C07]");
             }
         }
+    }
+
+
+    // ---- arms that decode a Huffman symbol: decode_huffman_code / HuffmanTable::lookup / decompress_fast behind models ----
+    /// decode_huffman_code contract model: either starved (returns end_of_input having consumed every offered byte)
+    /// or yields a symbol in 0..=511 with a 1..=15 bit code removed from the bit stream (its own contract rests on
+    /// the table invariant of init_tree: assumed, DESIGN.md §3.1).
+    fn model_dhc<F>(r: &mut DecompressorOxide, l: &mut LocalVars, table: usize, flags: u32, in_iter: &mut InputWrapper, f: F) -> Action
+    where F: FnOnce(&mut DecompressorOxide, &mut LocalVars, i32) -> Action {
+        assert!(table < 3, "OBL:arms.decode_symbol_pre_table_index [C05]");
+        assert!(l.num_bits <= 56, "OBL:arms.decode_symbol_pre_room_in_bit_buffer [C05]");
+        let starved: bool = kani::any();
+        if starved {
+            kani::assume(in_iter.bytes_left() < 2);
+            if let Some(b) = in_iter.read_byte() { l.bit_buf |= (b as BitBuffer) << l.num_bits; l.num_bits += 8; }
+            kani::assume(l.num_bits < 15);
+            return end_of_input(flags);
+        }
+        if l.num_bits < 15 {
+            let mut k = 0;
+            while k < 2 { if let Some(b) = in_iter.read_byte() { l.bit_buf |= (b as BitBuffer) << l.num_bits; l.num_bits += 8; } k += 1; }
+        }
+        let code_len: u32 = kani::any();
+        let symbol: i32 = kani::any();
+        kani::assume(code_len >= 1 && code_len <= 15 && code_len <= l.num_bits && symbol >= 0 && symbol <= 511);
+        l.bit_buf >>= code_len;
+        l.num_bits -= code_len;
+        f(r, l, symbol)
+    }
+    /// HuffmanTable::lookup contract model (fast path entries carry the length in bits 9.., symbol in the low 9 bits;
+    /// tree path returns a bare symbol): symbol part 0..=511 after masking, code length 1..=15.
+    static LK_CALLS: ::core::sync::atomic::AtomicUsize = ::core::sync::atomic::AtomicUsize::new(0);
+    static LK_LIMIT: ::core::sync::atomic::AtomicUsize = ::core::sync::atomic::AtomicUsize::new(usize::MAX);
+    fn model_lookup(this: &HuffmanTable, bit_buf: BitBuffer) -> (i32, u32) {
+        let n = LK_CALLS.fetch_add(1, ::core::sync::atomic::Ordering::Relaxed);
+        let code_len: u32 = kani::any();
+        let sym: i32 = kani::any();
+        kani::assume(code_len >= 1 && code_len <= 15 && sym >= 0 && sym <= 511);
+        // bounded stand-in: after LK_LIMIT symbols the stream says end-of-block
+        let sym = if n >= LK_LIMIT.load(::core::sync::atomic::Ordering::Relaxed) { 256 } else { sym };
+        let with_len: bool = kani::any();
+        (if with_len { sym | ((code_len as i32) << 9) } else { sym }, code_len)
+    }
+    static DF_CALLS: ::core::sync::atomic::AtomicUsize = ::core::sync::atomic::AtomicUsize::new(0);
+    /// decompress_fast contract model: returns (Done, DecodeLitlen | BlockDone) or (Failed, a failure state)
+    fn model_decompress_fast(r: &mut DecompressorOxide, in_iter: &mut InputWrapper, out_buf: &mut OutputBuffer, flags: u32, local_vars: &mut LocalVars, mask: usize) -> (TINFLStatus, State) {
+        DF_CALLS.fetch_add(1, ::core::sync::atomic::Ordering::Relaxed);
+        assert!(out_buf.bytes_left() >= 259 && in_iter.bytes_left() >= 14, "OBL:arms.fast_loop_entered_only_with_259_bytes_of_space_and_14_of_input [C05 C08]");
+        let k: u8 = kani::any();
+        match k % 5 {
+            0 => (TINFLStatus::Done, DecodeLitlen),
+            1 => (TINFLStatus::Done, BlockDone),
+            2 => (TINFLStatus::Failed, InvalidLitlen),
+            3 => (TINFLStatus::Failed, InvalidDist),
+            _ => (TINFLStatus::Failed, DistanceOutOfBounds),
+        }
+    }
+
+    #[kani::proof]
+    #[kani::unwind(10)]
+    #[kani::stub(decode_huffman_code, model_dhc)]
+    #[kani::stub(HuffmanTable::lookup, model_lookup)]
+    #[kani::stub(decompress_fast, model_decompress_fast)]
+    fn k_arm_decode_litlen() {
+        const BIG: usize = 300;
+        let mut r = any_decompressor(DecodeLitlen);
+        let l = any_l();
+        kani::assume(l.num_bits <= 56);
+        let inb: [u8; 16] = kani::any();
+        let inl: usize = kani::any();
+        kani::assume(inl <= 16);
+        let mut out = [0u8; BIG];
+        let outl: usize = kani::any();
+        let pos: usize = kani::any();
+        let budget: usize = kani::any();
+        let flags: u32 = kani::any();
+        kani::assume(outl <= BIG && pos <= outl);
+        let flat = flags & TINFL_FLAG_USING_NON_WRAPPING_OUTPUT_BUF != 0;
+        kani::assume(flat || matches!(outl, 0 | 1 | 2 | 4 | 8 | 16 | 32 | 64 | 128 | 256));
+        let mask: usize = if flat { usize::MAX } else { outl.saturating_sub(1) };
+        let in_iter = InputWrapper::from_slice(&inb[..inl]);
+        let ob = OutputBuffer::from_slice_pos_and_max(&mut out[..outl], pos, budget);
+        let left = ob.bytes_left();
+        let (a, l1, in1, ob1, st1) = verif_arm_DecodeLitlen(&mut r, l, in_iter, ob, flags, mask, &inb[..inl], DecodeLitlen);
+        assert!(inv_l(&l1), "OBL:arms.decode_litlen_registers_well_formed [C05]");
+        let p1 = ob1.position();
+        assert!(p1 >= pos && p1 - pos <= left && p1 - pos <= 2, "OBL:arms.decode_litlen_writes_at_most_two_literals_inside_window [C05 C08]");
+        let df = DF_CALLS.load(::core::sync::atomic::Ordering::Relaxed);
+        if inl < 4 || left < 2 {
+            assert!(df == 0 && p1 == pos, "OBL:arms.decode_litlen_slow_tier_when_input_or_space_short [C07]");
+            match a {
+                Action::Jump(WriteSymbol) => assert!(l1.counter <= 511, "OBL:arms.decode_litlen_slow_tier_hands_symbol_to_write_symbol [C03]"),
+                Action::End(_) => {}
+                _ => assert!(false, "OBL:arms.decode_litlen_slow_tier_outcomes [C04]"),
+            }
+        } else if left >= 259 && inl >= 14 {
+            assert!(df == 1, "OBL:arms.decode_litlen_fast_tier_selected [C07]");
+            match a {
+                Action::Jump(s) => assert!(st1 == s && (s == DecodeLitlen || s == BlockDone), "OBL:arms.fast_tier_done_continues_in_reported_state [C03]"),
+                Action::End(TINFLStatus::Failed) => assert!(is_failure_state(st1), "OBL:arms.fast_tier_failure_state_is_recorded_so_failure_is_sticky [C04 C05]"),
+                _ => assert!(false, "OBL:arms.fast_tier_outcomes [C04]"),
+            }
+        } else {
+            assert!(df == 0, "OBL:arms.decode_litlen_middle_tier [C07]");
+            match a {
+                Action::None => assert!(p1 == pos + 2, "OBL:arms.two_literals_written [C03]"),
+                Action::Jump(HuffDecodeOuterLoop1) => assert!(l1.counter & 256 != 0 && p1 <= pos + 1, "OBL:arms.non_literal_handed_to_length_decoding [C03]"),
+                _ => assert!(false, "OBL:arms.decode_litlen_middle_tier_outcomes [C04]"),
+            }
+        }
+        assert!(in1.bytes_left() <= inl, "OBL:arms.decode_litlen_consumes_only_offered_input [C05]");
+        kani::cover!(df == 1, "COV:arms.fast_tier");
+        kani::cover!(matches!(a, Action::None), "COV:arms.two_literals");
+    }
+
+    #[kani::proof]
+    #[kani::unwind(10)]
+    #[kani::stub(decode_huffman_code, model_dhc)]
+    fn k_arm_decode_distance() {
+        arm_ctx!(r, l, inb, inl, ioff, out, out0, outl, pos, budget, flags, mask, DecodeDistance);
+        let in_iter = InputWrapper::from_slice(&inb[ioff..inl]);
+        let ob = OutputBuffer::from_slice_pos_and_max(&mut out[..outl], pos, budget);
+        kani::assume(l.num_bits <= 56);
+        let (a, l1, in1, ob1, st1) = verif_arm_DecodeDistance(&mut r, l, in_iter, ob, flags, mask, &inb[..inl], DecodeDistance);
+        arm_generic_post(&a, &l1, &in1, &ob1, &out0, pos, budget, outl, flags, inl - ioff);
+        match a {
+            Action::Jump(InvalidDist) => {}
+            Action::Jump(ReadExtraBitsDistance) | Action::Jump(HuffDecodeOuterLoop2) => {
+                // the symbol is not observable directly; the registers must be an RFC (base, extra) pair
+                let k: usize = kani::any();
+                kani::assume(k < 30 && RFC_DIST_BASE[k] as u32 == l1.dist);
+                assert!(l1.num_extra == RFC_DIST_EXTRA[k], "OBL:arms.distance_symbol_decodes_per_rfc [C03]");
+                assert!(matches!(a, Action::Jump(ReadExtraBitsDistance)) == (l1.num_extra != 0), "OBL:arms.distance_symbol_next_state [C03]");
+            }
+            Action::End(_) => assert!(l1.counter == l.counter, "OBL:arms.decode_distance_starved_keeps_length [C07]"),
+            _ => assert!(false, "OBL:arms.decode_distance_outcomes [C04]"),
+        }
+        assert!(l1.counter == l.counter && ob1.position() == pos, "OBL:arms.decode_distance_keeps_length_and_writes_nothing [C07 C08]");
+        if let Action::Jump(HuffDecodeOuterLoop2) | Action::Jump(ReadExtraBitsDistance) = a {
+            assert!(is_rfc_dist_base(l1.dist), "OBL:arms.accepted_distance_symbol_is_one_of_the_30_defined [C04]");
+        }
+    }
+
+    #[kani::proof]
+    #[kani::unwind(10)]
+    #[kani::stub(decode_huffman_code, model_dhc)]
+    #[kani::stub(init_tree, model_init_tree)]
+    fn k_arm_code_lengths_hufflen() {
+        // ReadHufflenTableCodeSize
+        {
+            arm_ctx!(r, l, inb, inl, ioff, out, out0, outl, pos, budget, flags, mask, ReadHufflenTableCodeSize);
+            let in_iter = InputWrapper::from_slice(&inb[ioff..inl]);
+            let ob = OutputBuffer::from_slice_pos_and_max(&mut out[..outl], pos, budget);
+            kani::assume(l.num_bits <= 56 && r.table_sizes[HUFFLEN_TABLE] >= 4 && r.table_sizes[HUFFLEN_TABLE] <= 19 && l.counter <= r.table_sizes[HUFFLEN_TABLE] as u32 && r.block_type == 2);
+            let (v0, n0) = bits_view(&l, &inb[ioff..inl]);
+            let hclen = r.table_sizes[HUFFLEN_TABLE];
+            let (a, l1, in1, ob1, st1) = verif_arm_ReadHufflenTableCodeSize(&mut r, l, in_iter, ob, flags, mask, &inb[..inl], ReadHufflenTableCodeSize);
+            arm_generic_post(&a, &l1, &in1, &ob1, &out0, pos, budget, outl, flags, inl - ioff);
+            if l.counter < hclen as u32 {
+                if n0 >= 3 {
+                    assert!(matches!(a, Action::None) && r.code_size_huffman[RFC_CL_ORDER[l.counter as usize] as usize] as u128 == v0 & 7 && l1.counter == l.counter + 1, "OBL:arms.code_length_code_lengths_stored_in_rfc_order [C03]");
+                } else { assert!(matches!(a, Action::End(_)) && l1.counter == l.counter, "OBL:arms.hufflen_starved [C07]"); }
+            } else {
+                assert!(r.table_sizes[HUFFLEN_TABLE] == 19 && IT_CALLS.load(::core::sync::atomic::Ordering::Relaxed) == 1, "OBL:arms.code_length_table_built_over_all_19_symbols [C03]");
+            }
+        }
+    }
+    #[kani::proof]
+    #[kani::unwind(10)]
+    #[kani::stub(decode_huffman_code, model_dhc)]
+    #[kani::stub(init_tree, model_init_tree)]
+    fn k_arm_code_lengths_litlen_dist() {
+        // ReadLitlenDistTablesCodeSize
+        {
+            arm_ctx!(r, l, inb, inl, ioff, out, out0, outl, pos, budget, flags, mask, ReadLitlenDistTablesCodeSize);
+            let in_iter = InputWrapper::from_slice(&inb[ioff..inl]);
+            let ob = OutputBuffer::from_slice_pos_and_max(&mut out[..outl], pos, budget);
+            // established by ReadTableSizes (limits) and by this arm / ReadExtraBitsCodeSize (counter <= total + 137)
+            kani::assume(l.num_bits <= 56 && r.table_sizes[0] >= 257 && r.table_sizes[0] <= 286 && r.table_sizes[1] >= 1 && r.table_sizes[1] <= 30 && l.counter <= 286 + 30 + 137 && r.block_type == 2);
+            let total = r.table_sizes[0] as u32 + r.table_sizes[1] as u32;
+            let it0 = IT_CALLS.load(::core::sync::atomic::Ordering::Relaxed);
+            let lc_i: usize = kani::any();
+            kani::assume(lc_i < 512);
+            let lc0 = r.len_codes[lc_i];
+            let (a, l1, in1, ob1, st1) = verif_arm_ReadLitlenDistTablesCodeSize(&mut r, l, in_iter, ob, flags, mask, &inb[..inl], ReadLitlenDistTablesCodeSize);
+            arm_generic_post(&a, &l1, &in1, &ob1, &out0, pos, budget, outl, flags, inl - ioff);
+            if l.counter < total {
+                match a {
+                    Action::None => assert!(l1.counter == l.counter + 1 && l1.dist < 16 && r.len_codes[l.counter as usize] == l1.dist as u8, "OBL:arms.literal_code_length_0_15_stored [C03]"),
+                    Action::Jump(BadCodeSizeDistPrevLookup) => assert!(l1.dist == 16 && l.counter == 0, "OBL:arms.repeat_previous_with_no_previous_length_rejected [C04]"),
+                    Action::Jump(ReadExtraBitsCodeSize) => assert!(l1.dist >= 16 && l1.num_extra == [2u8, 3, 7, 0][(l1.dist as usize - 16) & 3] && l1.counter == l.counter && !(l1.dist == 16 && l.counter == 0), "OBL:arms.repeat_codes_16_17_18_read_2_3_7_extra_bits [C03]"),
+                    Action::End(_) => assert!(l1.counter == l.counter, "OBL:arms.code_lengths_starved [C07]"),
+                    _ => assert!(false, "OBL:arms.code_lengths_outcomes [C04]"),
+                }
+                if lc_i != l.counter as usize { assert!(r.len_codes[lc_i] == lc0, "OBL:arms.code_length_store_frame [C03]"); }
+            } else if l.counter != total {
+                assert!(matches!(a, Action::Jump(BadCodeSizeSum)), "OBL:arms.code_length_run_overrunning_the_tables_rejected [C04]");
+            } else {
+                assert!(IT_CALLS.load(::core::sync::atomic::Ordering::Relaxed) == it0 + 1 && r.block_type == 1, "OBL:arms.tables_built_distance_first [C03]");
+                // run lengths may cross the literal/distance boundary: the split is purely positional
+                let k: usize = kani::any();
+                kani::assume(k < 286);
+                if k < r.table_sizes[0] as usize && k == lc_i { assert!(r.code_size_literal[k] == lc0, "OBL:arms.literal_lengths_are_first_hlit_entries [C03]"); }
+                let d: usize = kani::any();
+                kani::assume(d < 30);
+                if d < r.table_sizes[1] as usize && r.table_sizes[0] as usize + d == lc_i { assert!(r.code_size_dist[d] == lc0, "OBL:arms.distance_lengths_follow_immediately_across_run_boundaries [C03]"); }
+            }
+        }
+    }
+    #[kani::proof]
+    #[kani::unwind(10)]
+    fn k_arm_code_lengths_repeat() {
+        // ReadExtraBitsCodeSize
+        {
+            arm_ctx!(r, l, inb, inl, ioff, out, out0, outl, pos, budget, flags, mask, ReadExtraBitsCodeSize);
+            let in_iter = InputWrapper::from_slice(&inb[ioff..inl]);
+            let ob = OutputBuffer::from_slice_pos_and_max(&mut out[..outl], pos, budget);
+            kani::assume(l.num_bits <= 56 && l.dist >= 16 && l.dist <= 18 && l.num_extra == [2u8, 3, 7][l.dist as usize - 16] && l.counter < 286 + 30 && !(l.dist == 16 && l.counter == 0));
+            let (v0, n0) = bits_view(&l, &inb[ioff..inl]);
+            let prev = r.len_codes[(l.counter as usize).wrapping_sub(1) & 511];
+            let lc_i: usize = kani::any();
+            kani::assume(lc_i < 512);
+            let lc0 = r.len_codes[lc_i];
+            let (a, l1, in1, ob1, st1) = verif_arm_ReadExtraBitsCodeSize(&mut r, l, in_iter, ob, flags, mask, &inb[..inl], ReadExtraBitsCodeSize);
+            arm_generic_post(&a, &l1, &in1, &ob1, &out0, pos, budget, outl, flags, inl - ioff);
+            let ne = l.num_extra as u32;
+            if n0 < ne {
+                assert!(matches!(a, Action::End(_)) && l1.counter == l.counter && r.len_codes[lc_i] == lc0, "OBL:arms.repeat_extra_bits_starved [C07]");
+            } else {
+                let x = (v0 & ((1u128 << ne) - 1)) as u32;
+                let rep = x + if l.dist == 18 { 11 } else { 3 };   // RFC 1951 §3.2.7: 16 -> 3..6 copies, 17 -> 3..10 zeros, 18 -> 11..138 zeros
+                let val = if l.dist == 16 { prev } else { 0 };
+                assert!(matches!(a, Action::Jump(ReadLitlenDistTablesCodeSize)) && l1.counter == l.counter + rep, "OBL:arms.repeat_count_per_rfc [C03]");
+                let inside = lc_i >= l.counter as usize && lc_i < (l.counter + rep) as usize;
+                assert!(r.len_codes[lc_i] == if inside { val } else { lc0 }, "OBL:arms.repeat_fills_exactly_the_run_with_previous_or_zero [C03]");
+            }
+        }
+    }
+
+    /// decompress_fast, bounded stand-in: at most 3 symbols before the (modelled) table yields end-of-block.
+    #[kani::proof]
+    #[kani::unwind(4)]
+    #[kani::stub(HuffmanTable::lookup, model_lookup)]
+    #[kani::stub(apply_match, model_apply_match)]
+    #[kani::stub(transfer, model_transfer)]
+    fn k_decompress_fast_bounded() {
+        const BIG: usize = 320;
+        LK_LIMIT.store(3, ::core::sync::atomic::Ordering::Relaxed);
+        let mut r = any_decompressor(DecodeLitlen);
+        let mut l = any_l();
+        kani::assume(l.num_bits <= 56);
+        let inb: [u8; 18] = kani::any();
+        let inl: usize = kani::any();
+        kani::assume(inl <= 18);
+        let mut out = [0u8; BIG];
+        let outl: usize = kani::any();
+        let pos: usize = kani::any();
+        let budget: usize = kani::any();
+        let flags: u32 = kani::any();
+        kani::assume(outl <= BIG && pos <= outl);
+        let flat = flags & TINFL_FLAG_USING_NON_WRAPPING_OUTPUT_BUF != 0;
+        kani::assume(flat || matches!(outl, 0 | 1 | 2 | 4 | 8 | 16 | 32 | 64 | 128 | 256));
+        let mask: usize = if flat { usize::MAX } else { outl.saturating_sub(1) };
+        let mut in_iter = InputWrapper::from_slice(&inb[..inl]);
+        let mut ob = OutputBuffer::from_slice_pos_and_max(&mut out[..outl], pos, budget);
+        let left = ob.bytes_left();
+        kani::assume(left >= 259 && inl >= 14); // the caller's guard (k_arm_decode_litlen: fast_loop_entered_only_with...)
+        let maxp = pos + left;
+        let (st, state) = decompress_fast(&mut r, &mut in_iter, &mut ob, flags, &mut l, mask);
+        assert!(ob.position() >= pos && ob.position() <= maxp, "OBL:fast.never_writes_past_the_granted_window [C05 C08]");
+        assert!(inv_l(&l), "OBL:fast.registers_well_formed [C05]");
+        match st {
+            TINFLStatus::Done => assert!(state == DecodeLitlen || state == BlockDone, "OBL:fast.done_states [C03]"),
+            TINFLStatus::Failed => assert!(state == InvalidLitlen || state == InvalidDist || state == DistanceOutOfBounds, "OBL:fast.failure_states [C04]"),
+            _ => assert!(false, "OBL:fast.only_done_or_failed [C04]"),
+        }
+        kani::cover!(st == TINFLStatus::Failed, "COV:fast.failed");
+        kani::cover!(AM_CALLS.load(::core::sync::atomic::Ordering::Relaxed) >= 1, "COV:fast.match");
     }
 
     //@PLAYBACK@
